@@ -55,6 +55,9 @@ theorem step_inv (env : Env) (happ : AppOk env) (screens : List Screen) (s : Pro
   | setRand r =>
     simp only [step]
     exact h
+  | reverseFailed sid =>
+    simp only [step]
+    exact h
   | register hd =>
     simp only [step]
     exact h
@@ -78,7 +81,7 @@ theorem step_inv (env : Env) (happ : AppOk env) (screens : List Screen) (s : Pro
         obtain ⟨d, hd, rfl⟩ := hc
         by_cases hcond : (d.id == cid) = true
         · rw [if_pos hcond] at hscr hn ⊢
-          obtain ⟨_, h2, h3, _⟩ := hsame
+          obtain ⟨_, h2, h3, _, _⟩ := hsame
           rw [h2] at hscr
           have hscr0 : scr = scr0 := by rw [hs0] at hscr; exact (Option.some.inj hscr).symm
           subst hscr0
@@ -92,6 +95,72 @@ theorem run_inv (env : Env) (happ : AppOk env) (screens : List Screen) (evs : Li
   induction evs generalizing s with
   | nil => exact h
   | cons e es ih => exact ih _ (step_inv env happ screens s e h)
+
+/-! ### who is exempt from authentication -/
+
+/-- the flag the authentication code reads agrees with how the client record came into being -/
+def ExemptOk (c : Conn) : Prop := (c.reverse = true ↔ c.origin = .reverse)
+
+def AllExemptOk (s : Proc) : Prop := ∀ c ∈ s.conns, ExemptOk c
+
+theorem step_exempt (fixed : Bool) (env : Env) (screens : List Screen) (s : Proc) (e : Ev)
+    (h : AllExemptOk s) : AllExemptOk (step fixed env screens s e) := by
+  cases e with
+  | connect cid sid rev =>
+    simp only [step]
+    split
+    · exact h
+    · split
+      · exact h
+      · intro c hc
+        simp only [List.mem_cons] at hc
+        rcases hc with rfl | hc
+        · cases rev <;> simp [ExemptOk]
+        · exact h c hc
+  | recv cid bytes =>
+    simp only [step]
+    intro c hc
+    simp only [List.mem_map] at hc
+    obtain ⟨d, hd, rfl⟩ := hc
+    have := h d hd
+    split <;> simpa [ExemptOk] using this
+  | peerClose cid =>
+    simp only [step]
+    intro c hc
+    simp only [List.mem_map] at hc
+    obtain ⟨d, hd, rfl⟩ := hc
+    have := h d hd
+    split <;> simpa [ExemptOk] using this
+  | setRand r => exact h
+  | reverseFailed sid => exact h
+  | register hd => exact h
+  | unregister hd => exact h
+  | proc cid =>
+    simp only [step]
+    cases hg : getConn s cid with
+    | none => exact h
+    | some c0 =>
+      simp only
+      cases hs0 : screens[c0.screen]? with
+      | none => exact h
+      | some scr0 =>
+        simp only
+        have hmem : c0 ∈ s.conns := (find_some_mem hg).1
+        obtain ⟨_, _, h3, _, h5⟩ := procConn_same fixed env scr0 s.handlers s.legacy s.rand c0
+        intro c hc
+        simp only [List.mem_map] at hc
+        obtain ⟨d, hd, rfl⟩ := hc
+        split
+        · have := h c0 hmem
+          unfold ExemptOk at this ⊢
+          rw [h3, h5]; exact this
+        · exact h d hd
+
+theorem run_exempt (fixed : Bool) (env : Env) (screens : List Screen) (evs : List Ev) (s : Proc)
+    (h : AllExemptOk s) : AllExemptOk (run fixed env screens s evs) := by
+  induction evs generalizing s with
+  | nil => exact h
+  | cons e es ih => exact ih _ (step_exempt fixed env screens s e h)
 
 /-! ### the password checkers -/
 
@@ -142,6 +211,7 @@ def Ev.foreign (cid : Nat) : Ev → Bool
   | .proc c => c != cid
   | .peerClose c => c != cid
   | .setRand _ => true
+  | .reverseFailed _ => true
   | .register _ => true
   | .unregister _ => true
 
@@ -200,6 +270,7 @@ theorem getConn_foreign (fixed : Bool) (env : Env) (screens : List Screen) (s : 
       have hne : (d.id == c) = false := by simp [this]; exact fun h => hf h.symm
       simp [hne]
   | setRand r => rfl
+  | reverseFailed sid => rfl
   | register hd => rfl
   | unregister hd => rfl
   | proc c =>
